@@ -53,6 +53,7 @@ type Program struct {
 	NumBlock int
 	NumInstr int
 	mdl      *Model
+	Instances []*ssa.Function // instantiations of the library's generic functions
 	Cloned    []string // helpers analysed as one copy per call site (clone.go)
 	CloneNote string
 }
@@ -183,6 +184,10 @@ func loadProgramOnce(cfg LoadConfig) (*Program, error) {
 	fns := ssautil.AllFunctions(prog)
 	p.CG = vta.CallGraph(fns, cha.CallGraph(prog))
 	for fn := range fns {
+		// instantiations of the library's generic functions have no package of their own
+		if fn.Blocks != nil && fn.Pkg == nil && fn.Origin() != nil && fn.Origin().Pkg == p.Leader && fn.Parent() == nil {
+			p.Instances = append(p.Instances, fn)
+		}
 		if fn.Blocks == nil || fn.Pkg == nil {
 			continue
 		}
@@ -257,6 +262,16 @@ func (p *Program) pkgFuncs(pkg *ssa.Package) []*ssa.Function {
 			}
 		}
 	}
-	sort.Slice(out, func(i, j int) bool { return out[i].Pos() < out[j].Pos() })
+	if pkg == p.Leader {
+		for _, f := range p.Instances {
+			add(f)
+		}
+	}
+	sort.Slice(out, func(i, j int) bool {
+		if out[i].Pos() != out[j].Pos() {
+			return out[i].Pos() < out[j].Pos()
+		}
+		return out[i].String() < out[j].String()
+	})
 	return out
 }
